@@ -40,6 +40,13 @@ pub fn handle(ctx: &mut LcdCtx, cmd: &str, req: &Value) -> Result<Value, String>
     match cmd {
         "lcd.new" => {
             ctx.lcd = Some(LcdController::new());
+            // capture: the controller's display-write capture (used by the front ends to collect what a frame drew) is switched on
+            // from the start; it is an observer and must not change what the controller does
+            if req.get("capture").and_then(|c| c.as_bool()).unwrap_or(false) {
+                if let Some(l) = ctx.lcd.as_mut() {
+                    l.begin_display_write_capture();
+                }
+            }
             ctx.prev = vec![0u8; 1024];
             Ok(project(ctx, None))
         }
